@@ -428,6 +428,7 @@ class FuncRun:
         self.loop_breaks: List[List[Optional[Env]]] = []
         self.for_stack: List[Tuple[ast.AST, Set[str]]] = []
         self.dict_literals: Dict[str, List[Tuple[str, ast.AST]]] = {}
+        self.const_sets: Dict[str, list] = {}
         self._eff_keywords: Dict[int, list] = {}
         self.loop_continues: List[List[Optional[Env]]] = []
         self.param_index = {p.name: p.index for p in f.params}
@@ -997,6 +998,9 @@ class FuncRun:
         return res
 
     def st_For(self, st, env):
+        if isinstance(st.target, ast.Name) and isinstance(st.iter, (ast.Tuple, ast.List, ast.Set)) and \
+                all(isinstance(x, ast.Constant) for x in st.iter.elts):
+            self.const_sets[st.target.id] = [x.value for x in st.iter.elts]
         it = self.ev(st.iter, env)
         elem = self.iter_elem(it)
         stored = {x.id for x in ast.walk(st) if isinstance(x, ast.Name) and isinstance(x.ctx, ast.Store)}
@@ -2033,6 +2037,21 @@ class FuncRun:
         if name == 'next':
             return AV(ty.elem_types(args[0].types), self.interior(args[0])) if args else UNKNOWN
         if name == 'getattr':
+            # getattr(obj, name) with name a constant, or a loop variable over a literal tuple of constants: the
+            # same as reading every one of those attributes
+            names = []
+            if len(e.args) >= 2:
+                a1 = e.args[1]
+                if isinstance(a1, ast.Constant) and isinstance(a1.value, str):
+                    names = [a1.value]
+                elif isinstance(a1, ast.Name) and a1.id in self.const_sets:
+                    names = [v for v in self.const_sets[a1.id] if isinstance(v, str)]
+            if names and args:
+                res = None
+                for nm in names:
+                    v = self.ev(ast.copy_location(ast.Attribute(value=e.args[0], attr=nm, ctx=ast.Load()), e), env)
+                    res = v if res is None else res.join(v)
+                return res
             return AV(EMPTY, self.interior(args[0])) if args else UNKNOWN
         if name == 'setattr':
             if len(args) >= 3:
